@@ -13,7 +13,7 @@ DESCRIPTION = {
              "message has enc_algo='cryptobox', a payload and no args/kwargs, and the serialized bytes do not contain the marker; tampered / wrong key / URI mismatch => the "
              "application handler is never invoked, events are dropped, invocations are answered with an encryption ERROR and calls fail with an ApplicationError whose URI is in "
              "the wamp.error.encryption.* / no_payload_codec set - never a silent success, never altered data.  Events are delivered to 1-3 handlers attached to the same subscription: all get the genuine payload, none any forged, swapped or superseded one.  Enumerated job: values the transport can carry but the payload codec cannot (set, frozenset, datetime, UUID, nested) in all directions incl. progressive results - the operation may fail, the clear payload never goes out.  Registrations are also made relative to register(prefix=...).  Non-trivial = a tampered ciphertext or a per-prefix keyring; "
-             "distinct by (direction, layout, alteration)."),
+             "distinct by (direction, layout, alteration). Layout 'tenants': per-prefix keys where several key pairs of one process face the same peer public key (another originator pair towards the same responder, another responder pair for the same originator), created before the pair under test."),
     "assumptions": ["errors are asserted to be encrypted only for keyrings that hold a key for the error URI (default-key layouts); with per-prefix keys the library looks the key up by error URI (don't-care)"],
 }
 
